@@ -58,6 +58,7 @@ import (
 	"git.metabarcoding.org/obitools/obitools4/obitools4/pkg/verifkit"
 	dsbzip2 "github.com/dsnet/compress/bzip2"
 	"github.com/klauspost/compress/zstd"
+	"github.com/klauspost/pgzip"
 	log "github.com/sirupsen/logrus"
 	"github.com/ulikunitz/xz"
 )
@@ -525,8 +526,21 @@ func c17probe(req c17req) (nok int64, class string, msg string) {
 		rd = c17newFaultReader(data, req.K, req.ErrKind)
 	}
 	b, err := Buf(rd)
+	if err == ErrNoContent {
+		// Buf could not read a first character of a non-empty file and calls it "no content": ask the
+		// decompression library itself what its first read says
+		var rd2 io.Reader = bytes.NewReader(data)
+		if req.K >= 0 {
+			rd2 = c17newFaultReader(data, req.K, req.ErrKind)
+		}
+		raw := c17rawFirstReadErr(rd2)
+		if raw == nil || raw == io.EOF {
+			return 0, "no-decoder-error", "the decompression library reports a clean end of stream before any decoded byte"
+		}
+		return 0, "first-read-error", "Buf: " + err.Error() + "; decompressor: " + raw.Error()
+	}
 	if err != nil {
-		return 0, "first-read-error", err.Error()
+		return 0, "open-error", err.Error()
 	}
 	// Read path only (the readers under test use Read; pgzip's WriteTo behaves differently)
 	nok, err = io.Copy(io.Discard, struct{ io.Reader }{b})
@@ -534,6 +548,41 @@ func c17probe(req c17req) (nok int64, class string, msg string) {
 		msg = err.Error()
 	}
 	return nok, c17errClass(err), msg
+}
+
+// c17rawFirstReadErr: error of the first read of the decompressor that Buf selects for this stream (labels only).
+func c17rawFirstReadErr(rd io.Reader) error {
+	br := bufio.NewReaderSize(rd, 65536)
+	has := func(m ...byte) bool {
+		p, err := br.Peek(len(m))
+		return err == nil && bytes.Equal(p, m)
+	}
+	var dec io.Reader = br
+	var err error
+	switch {
+	case has(0x1f, 0x8b):
+		dec, err = pgzip.NewReader(br)
+	case has(0x28, 0xb5, 0x2f, 0xfd):
+		dec, err = zstd.NewReader(br)
+	case has(0xfd, 0x37, 0x7a, 0x58, 0x5a, 0x00):
+		dec, err = xz.NewReader(br)
+	case has(0x42, 0x5a, 0x68):
+		dec, err = dsbzip2.NewReader(br, &dsbzip2.ReaderConfig{})
+	}
+	if err != nil {
+		return err
+	}
+	one := make([]byte, 1)
+	for i := 0; i < 100; i++ {
+		n, err := dec.Read(one)
+		if n > 0 {
+			return nil
+		}
+		if err != nil {
+			return err
+		}
+	}
+	return io.ErrNoProgress
 }
 
 func c17childMain() {
@@ -977,6 +1026,10 @@ func TestVerifC17(t *testing.T) {
 	if thorough {
 		baseNames = append(baseNames, "fq300", "fa2k", "fa1m2")
 	}
+	if bs := os.Getenv("VERIF_C17_BASES"); bs != "" { // debugging knob: restrict the base files
+		baseNames = strings.Split(bs, ",")
+		r.Cap("base files restricted by VERIF_C17_BASES=" + bs)
+	}
 	r.Bound("codecs", codecs)
 	r.Bound("base_files", baseNames)
 	r.Bound("binary_subset", fmt.Sprintf("1 in %d of the file-driver cases (hash of the case index); stdin driver: all", binRate))
@@ -1038,6 +1091,9 @@ func TestVerifC17(t *testing.T) {
 			fail("%v", err)
 		}
 		intactPath[k] = p
+		if kd := os.Getenv("VERIF_C17_KEEP"); kd != "" {
+			os.WriteFile(filepath.Join(kd, "intact_"+bn+"."+codec), img, 0o644)
+		}
 		return p
 	}
 
@@ -1117,6 +1173,9 @@ func TestVerifC17(t *testing.T) {
 		casePath := filepath.Join(shardDir, fmt.Sprintf("c17case_w%d.%s.%s", w.id, b.Fmt, c.Codec))
 		r.Eval(1)
 		r.Count("cases_"+c.Driver+"_"+c.Fault, 1)
+		if c.Fault != "none" {
+			r.Count("faulted_cases_executed", 1)
+		}
 
 		switch c.Driver {
 		case "file", "reader":
@@ -1150,7 +1209,7 @@ func TestVerifC17(t *testing.T) {
 			r.State(fmt.Sprintf("%s.%s|%s|%s|%s|%d|%v|%s", c.Base, c.Codec, c.Driver, c.Fault, resp.Outcome, resp.NRec, resp.Equal, normMsg(resp.Msg)))
 			drv := "ReadSequencesFromFile"
 			if c.Driver == "reader" {
-				drv = "Buf+OBIMimeTypeGuesser+Read" + strings.ToUpper(b.Fmt[:1]) + b.Fmt[1:]
+				drv = "Buf+OBIMimeTypeGuesser+ReadFastx(reader)"
 			}
 			inproc := "failure"
 			label := "unlabelled"
@@ -1172,6 +1231,8 @@ func TestVerifC17(t *testing.T) {
 					switch {
 					case p.Class == "first-read-error":
 						site = "Buf"
+					case p.Class == "open-error":
+						site = "caller-of-Buf"
 					case p.Class == "no-decoder-error":
 						site = "decompression-library"
 					case p.NOK >= 1024*1024:
@@ -1333,11 +1394,10 @@ func TestVerifC17(t *testing.T) {
 						}
 					}
 				}
+				// read error on the compressed stream (an io.ErrUnexpectedEOF there is the truncation above)
 				for _, p := range positions(len(img), b.Large, 0) {
-					for _, ek := range []string{"EIO", "UEOF"} {
-						if !visit(c17case{Base: bn, Codec: codec, Driver: "reader", Fault: "rderr", Pos: p, ErrKind: ek}) {
-							return
-						}
+					if !visit(c17case{Base: bn, Codec: codec, Driver: "reader", Fault: "rderr", Pos: p, ErrKind: "EIO"}) {
+						return
 					}
 				}
 			}
@@ -1383,7 +1443,7 @@ func TestVerifC17(t *testing.T) {
 	r.Sample(c17case{Base: "fq2k", Codec: "zst", Driver: "file", Fault: "flip", Pos: 8*40 + 3})
 	r.Sample(c17case{Base: "fq2k", Codec: "plain", Driver: "reader", Fault: "rderr", Pos: 1000, ErrKind: "EIO"})
 	r.Sample(c17case{Base: "fa300", Codec: "gz", Driver: "stdin", Fault: "trunc", Pos: 100})
-	r.RequireNonVacuous("outcome_error")
+	r.RequireNonVacuous("faulted_cases_executed")
 	r.RequireNonVacuous("binary_runs")
 	r.RequireNonVacuous("control_ok")
 }
